@@ -750,7 +750,10 @@ def run_history(ctx, builder, hello, modeld, hid, script, fresh_oracle, res):
             elif resp == "env:CCFLAGS":
                 key = KNOWN_CLASSES["ccflags"]
             else:
-                key = "cache:stale:%s:%s" % (resp, "+".join(mod.log[-3:]))
+                # unknown class: name the responsible input and the last edit that touched it
+                tail = {"flag:-X": "xvar", "flag:-tags": "tag", "env:CCFLAGS": "ccflags"}.get(resp, resp)
+                last = next((e for e in reversed(mod.log) if e.startswith(tail) or e.endswith(":" + tail)), mod.log[-1] if mod.log else "initial")
+                key = "cache:stale:%s:after:%s" % (resp, last)
             res["stale"].setdefault(key, 0)
             res["stale"][key] += 1
             ctx.report(key, "after the edit `%s` the program built through the cache prints `%s %s`, a clean build of the same inputs prints `%s %s`"
@@ -837,6 +840,8 @@ def reproducibility(ctx, builder, res, rounds=2):
             if a == b:
                 continue
             ndiff += 1
+            if ndiff > 3:
+                continue          # one cause usually shows in every package: three replays are enough
             da = (a or b"").decode("utf-8", "replace").split("\n")
             db = (b or b"").decode("utf-8", "replace").split("\n")
             diff = list(difflib.unified_diff(da, db, "build-0/" + mid, "build-%d/%s" % (k, mid), lineterm="", n=1))[:200]
@@ -911,7 +916,11 @@ def run(ctx, args):
     b_harn = Builder(ctx, harness, True)
     rng = ctx.rng
     # corpus first: the kernel-checked counterexamples of Props/C13.lean, replayed on the real compiler
-    plans = [("replay-known", b_llgo, [("cside", None), ("ccflags", None), ("src-hidden", "c/c.go"), ("noop", None), ("clear", None)], False)]
+    plans = []
+    corpus = json.load(open(os.path.join(VERIF, "corpus", "C13", "histories.json")))
+    for h in corpus["histories"]:
+        if h["tier"] == "quick" or not quick:
+            plans.append((h["id"], b_harn if h["compiler"] == "harness" else b_llgo, [(k, a) for k, a in h["script"]], False))
     targeted = []
     for kind in sorted(set(c[0] for c in coarser)):
         if kind in TARGETED and TARGETED[kind] not in targeted:
